@@ -52,6 +52,7 @@ def scenarios(tier):
     out.append(dict(name='adaptive', kind='enum', runner='run_adaptive', params=dict(thorough=thorough), weight=50))
     out.append(dict(name='partial-reads', kind='enum', runner='run_partial_reads', params=dict(), weight=10))
     out.append(dict(name='keepalive-busy', kind='enum', runner='run_keepalive_busy', params=dict(), weight=10))
+    out.append(dict(name='adaptive-second-init', kind='enum', runner='run_adaptive_second_init', params=dict(), weight=30))
     return out
 
 
@@ -223,6 +224,83 @@ def run_keepalive_busy(params, known):
                         v['case'] = case
                         violations.append(v)
     return dict(name='keepalive-busy', evaluations=count, violations=violations, known=[], samples=[])
+
+
+def run_adaptive_second_init(params, known):
+    '''Adaptive sizing against a peer that sends a second SESS_INIT (refused by the endpoint)
+    announcing other limits: the limits of the session stay those of the first SESS_INIT, on
+    the wire (every segment) and in get_session_parameters(), whatever the acknowledgement
+    timing and wherever the stray SESS_INIT arrives.'''
+    violations = []
+    count = 0
+    mru = 20000
+    for role in ('passive', 'active'):
+        for second_mru in (1000, mru, 10 ** 6):
+            for where in ('before-first-bundle', 'after-first-ack', 'between-bundles'):
+                for delays in itertools.product((1, 10 ** 7), repeat=3):
+                    count += 1
+                    case = dict(role=role, first_segment_mru=mru, second_segment_mru=second_mru, second_init=where, ack_delays_us=list(delays))
+                    data = bytes(range(256)) * 235          # 60160 octets: several segments at any adapted size
+                    w = PeerWorld(dict(role=role, seg_mru=64000, tx_init=5000, modulate=1, max_quiesce=4000))
+                    w.peer_write(T.enc_contact(0) + T.enc_sess_init(0, mru, 10 ** 9, b'dtn://p/'))
+                    w.quiesce()
+                    parser = T.StreamParser()
+                    pos = 0
+                    pending = []
+                    found = None
+                    stray_sent = False
+                    acks = 0
+
+                    def absorb():
+                        nonlocal pos, found
+                        for m in parser.feed(w.out_octets[pos:]):
+                            if m['kind'] == 'XFER_SEGMENT':
+                                pending.append(m)
+                                if len(m['data']) > mru and found is None:
+                                    found = 'XFER_SEGMENT of %d octets, the peer announced a segment MRU of %d' % (len(m['data']), mru)
+                        pos = len(w.out_octets)
+
+                    def stray():
+                        nonlocal stray_sent
+                        stray_sent = True
+                        w.peer_write(T.enc_sess_init(0, second_mru, 10 ** 9, b'dtn://p/'))
+                        w.quiesce()
+                        absorb()
+                    absorb()
+                    if where == 'before-first-bundle':
+                        stray()
+                    totals = {}
+                    for bundle_no in (1, 2):
+                        if bundle_no == 2 and where == 'between-bundles' and not stray_sent:
+                            stray()
+                        w.bus_call(w.proc, RPATH, 'send_bundle_data', data, iface=RIFACE)
+                        w.quiesce()
+                        absorb()
+                        guard = 0
+                        while pending and found is None and guard < 400:
+                            guard += 1
+                            m = pending.pop(0)
+                            totals[m['transfer_id']] = totals.get(m['transfer_id'], 0) + len(m['data'])
+                            w.clock.now_us += delays[min(acks, 2)]
+                            acks += 1
+                            w.peer_write(T.enc_ack(m['flags'], m['transfer_id'], totals[m['transfer_id']]))
+                            w.quiesce()
+                            absorb()
+                            if where == 'after-first-ack' and not stray_sent:
+                                stray()
+                        if found:
+                            break
+                    if found is None:
+                        prm = w.bus_call(w.proc, RPATH, 'get_session_parameters', iface=RIFACE)
+                        if prm[0] != 'ok' or int(prm[1].get('peer_segment_mru', -1)) != mru:
+                            found = 'get_session_parameters reports peer segment MRU %r, negotiated %d' % (prm[1].get('peer_segment_mru') if prm[0] == 'ok' else prm, mru)
+                    if found is None and w.escaped:
+                        found = 'escaped %s: %s' % (w.escaped[-1][0], w.escaped[-1][2])
+                    if found and len(violations) < 4:
+                        v = Violation(PROP, 'wire', 'segment-exceeds-peer-mru' if 'XFER_SEGMENT' in found else 'negotiated-parameters-changed', dict(), '%r: %s' % (case, found)).as_dict()
+                        v['case'] = case
+                        violations.append(v)
+    return dict(name='adaptive-second-init', evaluations=count, violations=violations, known=[], samples=[])
 
 
 def run_adaptive(params, known):
